@@ -73,6 +73,7 @@ class STerm(SymVal):
             if len(self.b) == 1: return f'{sym}{self.b[0]!r}'
             return f'({self.b[0]!r} {sym} {self.b[1]!r})'
         if self.kind == 'quant': return f'{"E" if self.a.name == "Existential" else "U"}{self.b}.{self.c!r}'
+        if self.kind == 'unneg': return f'unneg[{self.a!r}]'
         return '?'
     # constructors
     @staticmethod
@@ -88,6 +89,7 @@ class STerm(SymVal):
         if self.kind == 'body':
             return STerm('inst', self.a, param) if self.b == var else self
         if self.kind == 'op': return STerm('op', self.a, tuple(x.subst_var(var, param) for x in self.b))
+        if self.kind == 'unneg': return STerm('unneg', self.a.subst_var(var, param))
         if self.kind == 'quant':
             if self.b == var: return self
             return STerm('quant', self.a, self.b, self.c.subst_var(var, param))
@@ -113,9 +115,12 @@ class STerm(SymVal):
         if name == 'negative':
             def negative(it):
                 if self.kind == 'op' and self.a is Operator.Negation: return self.b[0]
-                if self.kind in ('atom', 'body', 'inst') and NEGATIVE_OF_OPAQUE == 'outside':
+                if self.kind in ('atom', 'body', 'inst', 'unneg'):
                     # an opaque operand stands for ANY sentence, a negation included: negative() strips a negation it cannot see here
-                    raise Outside('negative() of an opaque sentence (it may itself be a negation)')
+                    global NEGATIVE_USED
+                    NEGATIVE_USED = True
+                    if NEGATIVE_OF_OPAQUE == 'outside': raise Outside('negative() of an opaque sentence (it may itself be a negation)')
+                    if NEGATIVE_OF_OPAQUE == 'unneg': return STerm('unneg', self)      # the operand IS a negation: what it negates
                 return self.neg()
             return Contract(negative, 'Sentence.negative')
         if name == 'asserted': return Contract(lambda it: STerm.Op(Operator.Assertion, self), 'Sentence.asserted')
@@ -130,7 +135,7 @@ class STerm(SymVal):
             out = frozenset()
             for x in self.b: out |= x.sym_getattr(it, name)
             return out
-        if self.kind in ('atom', 'body', 'inst'):
+        if self.kind in ('atom', 'body', 'inst', 'unneg'):
             raise Outside(f'attribute {name} of an opaque sentence')
         raise Outside(f'sentence attribute {name}')
     def sym_unop(self, it, op):
@@ -174,6 +179,7 @@ class STerm(SymVal):
         raise Outside('type() of an opaque sentence')
     def sym_truth(self, it): return True
 
+NEGATIVE_USED = False
 NEGATIVE_OF_OPAQUE = 'neg'        # rule-schema interpretation (rulesem.schema) switches to 'outside': there an operand stands for any sentence
 
 def Atom(n): return STerm('atom', n)
